@@ -105,13 +105,17 @@ CLAIMS = {
              "reference is NOT decided.",
         design="DESIGN.md section 5 C15"),
     "C16": dict(
-        technique="abstract interpretation of StunPacketDecoder::decode/new; per-path conservation laws checked as identities between linear forms of the extracted index ranges and counts",
-        text="Partial: on each of the seven paths of one decode(data) call, as linear identities over (current_size, "
+        technique="abstract interpretation of StunPacketDecoder::decode/new; per-path conservation laws and branch conditions as linear forms; class invariant proved by induction over calls with a Fourier-Motzkin relational domain",
+        text="Partial: (i) on each of the seven paths of one decode(data) call, as linear identities over (current_size, "
              "expected_size, data.len(), header length): every copy has equal source and destination length, starts at the "
              "buffer's fill level and at the consumed offset of data; consumed = bytes copied; current_size' = current_size + "
-             "copied; packet size = expected size; missing = expected - current_size'; errors only after exactly 20 header "
-             "bytes, handing the buffer back. The induction over calls (any chunking reproduces the stream) and byte equality "
-             "of the copies are NOT decided.",
+             "copied; packet size = expected size; missing = expected - current_size'; (ii) the comparisons selecting each path "
+             "are exactly the reassembler's decision conditions; (iii) the class invariant (20 <= buffer.len(); current_size < 20 "
+             "or current_size < expected <= buffer.len()) is established by new(), preserved by every path that returns a "
+             "decoder, and implies that every slice range, copy and usize operation of decode is in range - the induction "
+             "over calls, for every chunking; (iv) a header is accepted only with the top two bits zero and the magic cookie. "
+             "NOT decided: byte equality of the copies themselves (std copy_from_slice) and the composition of (i)-(iii) into "
+             "the statement about whole streams, which is a paper argument over these machine-checked steps.",
         design="DESIGN.md section 5 C16"),
     "C17": dict(
         technique="interprocedural effect analysis by path-sensitive abstract interpretation: writes on every rejecting path",
